@@ -62,10 +62,32 @@ def query(tu, name, extra_flags=()):
     cc = "clang" if tu.endswith(".c") else "clang++"
     cmd = [cc] + tu_flags(tu) + list(extra_flags) + ["-fsyntax-only", "-Wno-everything", "-Xclang", "-ast-dump=json",
                                                      "-Xclang", "-ast-dump-filter=" + name, os.path.join(REPO, tu)]
-    p = subprocess.run(cmd, capture_output=True, text=True)
-    if p.returncode != 0:
-        raise ClangError("clang failed on %s: %s" % (tu, p.stderr[-2000:]))
-    s = p.stdout
+    # opt-in development cache (VF_AST_CACHE=<dir>): never used unless requested; the key covers the command and the
+    # content of the TU, of the sources next to it and of the working tree's uncommitted changes
+    cache = os.environ.get("VF_AST_CACHE")
+    cfile = None
+    if cache:
+        h = hashlib.sha1(" ".join(cmd).encode())
+        d = os.path.dirname(os.path.join(REPO, tu))
+        for fn in sorted(os.listdir(d)):
+            fp = os.path.join(d, fn)
+            if os.path.isfile(fp):
+                h.update(open(fp, "rb").read())
+        h.update(subprocess.run(["git", "-C", REPO, "diff", "HEAD"], capture_output=True).stdout)
+        h.update(subprocess.run(["git", "-C", REPO, "rev-parse", "HEAD"], capture_output=True).stdout)
+        os.makedirs(cache, exist_ok=True)
+        cfile = os.path.join(cache, h.hexdigest() + ".json")
+    if cfile and os.path.exists(cfile):
+        s = open(cfile).read()
+    else:
+        p = subprocess.run(cmd, capture_output=True, text=True)
+        if p.returncode != 0:
+            raise ClangError("clang failed on %s: %s" % (tu, p.stderr[-2000:]))
+        s = p.stdout
+        if cfile:
+            with open(cfile + ".tmp%d" % os.getpid(), "w") as f:
+                f.write(s)
+            os.replace(cfile + ".tmp%d" % os.getpid(), cfile)
     dec = json.JSONDecoder()
     i, objs = 0, []
     n = len(s)
